@@ -29,6 +29,7 @@ CProp(li, kind) ==
 CQuant(li, kind) ==
     IF kind = "two" THEN (CASE li = 10 -> 340 [] li = 11 -> 310 [] li = 12 -> 240 [] li = 14 -> 165)
     ELSE (CASE li = 10 -> 650 [] li = 11 -> 520 [] li = 12 -> 390 [] li = 14 -> 260)
+OffGridFloor == IF "OFFGRID_FLOOR" \in DOMAIN IOEnv THEN atoi(IOEnv.OFFGRID_FLOOR) ELSE 4500      \* in 1/10000
 \* mean slack in 1/10000
 MeanSlackProp(n)  == IF n < 400 THEN 80 ELSE 30
 MeanSlackQuant(n) == 100 + 20000 \div n
@@ -105,13 +106,18 @@ QuantStep(e) ==
                          [] o.iv.kind = "upper" -> o.iv.lo + 1 <= k
                          [] o.iv.kind = "lower" -> k <= o.iv.hi
                     THEN 1 ELSE 0]
-        S    == IF use THEN BinomSumSel(n, e.a, e.den, sel) ELSE BigZero
+        off  == e.out.tag = "ok" /\ ~OnGrid(n, e.a, e.den)
+        S    == IF use \/ off THEN BinomSumSel(n, e.a, e.den, sel) ELSE BigZero
         q1   == IF use THEN [sumS |-> BigAdd(q0.sumS, S), pts |-> q0.pts + 1] ELSE q0
         f    == {c \in {"C12.quant_pointwise"} : use /\
                     ~PointOK(S, T, LevelA[e.li], Min2i(e.a, e.den - e.a), n, e.den, CQuant(e.li, e.conf.kind))}
+                \* extreme quantiles (n q or n (1-q) below 10): whenever an interval is returned at all its
+                \* coverage stays above L - OffGridFloor (the documented, weak floor of that region)
+                \cup {c \in {"C12.quant_extreme_floor"} : off /\
+                        BigLt(BigMul(BigOfInt(10000), S), BigMul(BigOfInt(LevelA[e.li] - OffGridFloor), T))}
                 \cup {c \in {"C12.quant_mean"} : e.last /\ q1.pts >= 50 /\
                         ~MeanOK(q1.sumS, q1.pts, T, LevelA[e.li], MeanSlackQuant(n))}
-        cs   == (IF use THEN {"C12.quant_pointwise"} ELSE {})
+        cs   == (IF use THEN {"C12.quant_pointwise"} ELSE {}) \cup (IF off THEN {"C12.quant_extreme_floor"} ELSE {})
                 \cup (IF e.last /\ q1.pts >= 50 THEN {"C12.quant_mean"} ELSE {})
     IN /\ (f # {}) => PrintT("BAD " \o ToJson([id |-> e.id, failed |-> f]))
        /\ nbad' = nbad + (IF f = {} THEN 0 ELSE 1)
